@@ -29,6 +29,7 @@ let ev = function
 
 let () =
   iter_cases Sys.argv.(1) (fun line ->
+    try
     match split_on '|' line with
     | hd :: rest ->
       (match ints hd with
@@ -75,4 +76,5 @@ let () =
          if String.length s > 0 && s.[0] = ' ' then String.sub s 1 (String.length s - 1) else s
          end
        | _ -> "<bad case>")
-    | _ -> "<bad case>")
+    | _ -> "<bad case>"
+    with Failure _ -> "<bad case>")
